@@ -823,6 +823,20 @@ impl C03 {
             }
         }
         cx.class(&format!("gen-images:{}", what));
+        // one font in three carries a second kind of image table over a different glyph set: which
+        // table answers must not depend on what was looked up before
+        if rng.chance(1, 3) {
+            if what != "svg" {
+                let (t, _) = bm::gen_svg(rng, n);
+                tables.push(("SVG ", t));
+            } else {
+                let (t, _) = bm::gen_sbix(rng, n);
+                tables.push(("sbix", t));
+                ppems.extend_from_slice(&[15, 16, 17, 31, 32, 33, 127, 128, 129]);
+            }
+            gids.extend(0..n);
+            cx.class("gen-images:two-kinds-of-image-table");
+        }
         gids.sort_unstable();
         gids.dedup();
         ppems.sort_unstable();
